@@ -578,7 +578,12 @@ func VerifyEvidence(doc *document.Document, evidence *document.ChipAuthEvidence)
 	// SmSsc default to 1, which is correct when SelectEF was the first SM command (SSC=2).
 	sscInit := big.NewInt(1)
 	if len(evidence.SmSsc) > 0 {
-		sscInit.Sub(new(big.Int).SetBytes(evidence.SmSsc), big.NewInt(1))
+		// the captured counter must be a counter value: non-zero and no wider than the cipher's counter
+		capturedSsc := new(big.Int).SetBytes(evidence.SmSsc)
+		if capturedSsc.Sign() == 0 || capturedSsc.BitLen() > 8*len(sm.SSC()) {
+			return nil, fmt.Errorf("[VerifyEvidence] invalid SmSsc (%x)", evidence.SmSsc)
+		}
+		sscInit.Sub(capturedSsc, big.NewInt(1))
 	}
 	ssc := make([]byte, len(sm.SSC()))
 	sscInit.FillBytes(ssc)
